@@ -74,3 +74,69 @@ package types
 //@   safety
 //@   ensures eight-bytes: ret(DataTypeFormat.IsBinaryFormat)[0] && len(data) == 8 ==> called(strconv.FormatInt) && uint64(argof(strconv.FormatInt)[0]) == be64(data)
 //@   ensures other-lengths-unchanged: ret(DataTypeFormat.IsBinaryFormat)[0] && len(data) != 8 ==> sameslice(out, data) && err == nil
+
+// ---- TextDataType: the value as is when revealed, the failure policy otherwise (C19) ----
+//@ func (t *TextDataType) Encode(ctx context.Context, data []byte, format type_awareness.DataTypeFormat) (outCtx context.Context, out []byte, err error)
+//@   props C19
+//@   safety
+//@   noinline EncodeOnFail
+//@   ensures revealed-as-is: ret(base.IsDecryptedFromContext)[0] ==> sameslice(out, data) && err == nil && !called(TextDataType.EncodeOnFail)
+//@   ensures policy-consulted-when-unrevealed: !ret(base.IsDecryptedFromContext)[0] ==> called(TextDataType.EncodeOnFail)
+//@   ensures policy-error-propagates: called(TextDataType.EncodeOnFail) && ret(TextDataType.EncodeOnFail)[2] != nil ==> err == ret(TextDataType.EncodeOnFail)[2] && out == nil
+//@   ensures policy-value-used: called(TextDataType.EncodeOnFail) && ret(TextDataType.EncodeOnFail)[2] == nil && ret(TextDataType.EncodeOnFail)[1] != nil ==> sameslice(out, ret(TextDataType.EncodeOnFail)[1]) && err == nil
+//@   ensures ciphertext-as-stored: called(TextDataType.EncodeOnFail) && ret(TextDataType.EncodeOnFail)[2] == nil && ret(TextDataType.EncodeOnFail)[1] == nil ==> sameslice(out, data) && err == nil
+
+//@ func (t *TextDataType) EncodeOnFail(ctx context.Context, format type_awareness.DataTypeFormat) (outCtx context.Context, out []byte, err error)
+//@   props C19
+//@   safety
+//@   noinline encodeDefault
+//@   ensures ciphertext-or-empty: ret(DataTypeFormat.GetResponseOnFail)[0] == common.ResponseOnFailEmpty || ret(DataTypeFormat.GetResponseOnFail)[0] == common.ResponseOnFailCiphertext ==> out == nil && err == nil
+//@   ensures error-policy: ret(DataTypeFormat.GetResponseOnFail)[0] == common.ResponseOnFailError ==> err != nil && out == nil
+//@   ensures default-policy: ret(DataTypeFormat.GetResponseOnFail)[0] == common.ResponseOnFailDefault && ret(DataTypeFormat.GetDefaultDataValue)[0] != nil ==> err == nil && len(out) == len(*ret(DataTypeFormat.GetDefaultDataValue)[0])
+//@   ensures unknown-policy-rejected: ret(DataTypeFormat.GetResponseOnFail)[0] != common.ResponseOnFailEmpty && ret(DataTypeFormat.GetResponseOnFail)[0] != common.ResponseOnFailCiphertext && ret(DataTypeFormat.GetResponseOnFail)[0] != common.ResponseOnFailDefault && ret(DataTypeFormat.GetResponseOnFail)[0] != common.ResponseOnFailError ==> err != nil
+
+//@ func (t *TextDataType) Decode(ctx context.Context, data []byte, format type_awareness.DataTypeFormat) (outCtx context.Context, out []byte, err error)
+//@   props C19
+//@   safety
+//@   ensures binary-untouched: ret(DataTypeFormat.IsBinaryFormat)[0] ==> sameslice(out, data) && err == nil
+//@   ensures undecodable-untouched: called(utils.DecodeEscaped) && ret(utils.DecodeEscaped)[1] != nil ==> sameslice(out, data)
+//@   ensures decoded-and-original-kept: called(utils.DecodeEscaped) && ret(utils.DecodeEscaped)[1] == nil ==> sameslice(out, ret(utils.DecodeEscaped)[0]) && err == nil && called(base.EncodedValueContext) && sameslice(argof(base.EncodedValueContext)[1], data)
+//@   ensures plain-untouched: !ret(DataTypeFormat.IsBinaryFormat)[0] && !ret(DataTypeFormat.IsBinaryDataOperation)[0] ==> sameslice(out, data) && err == nil
+//@   at call utils.DecodeEscaped : assert sameslice(arg[0], data)
+
+// ---- ByteaDataTypeEncoder (C19) ----
+//@ func (t *ByteaDataTypeEncoder) Encode(ctx context.Context, data []byte, format type_awareness.DataTypeFormat) (outCtx context.Context, out []byte, err error)
+//@   props C19
+//@   safety
+//@   noinline EncodeOnFail
+//@   ensures policy-consulted-when-unrevealed: !ret(base.IsDecryptedFromContext)[0] ==> called(ByteaDataTypeEncoder.EncodeOnFail)
+//@   ensures policy-error-propagates: called(ByteaDataTypeEncoder.EncodeOnFail) && ret(ByteaDataTypeEncoder.EncodeOnFail)[2] != nil ==> err == ret(ByteaDataTypeEncoder.EncodeOnFail)[2] && out == nil
+//@   ensures policy-value-used: called(ByteaDataTypeEncoder.EncodeOnFail) && ret(ByteaDataTypeEncoder.EncodeOnFail)[2] == nil && ret(ByteaDataTypeEncoder.EncodeOnFail)[1] != nil ==> sameslice(out, ret(ByteaDataTypeEncoder.EncodeOnFail)[1]) && err == nil
+//@   ensures binary-as-is: (ret(base.IsDecryptedFromContext)[0] || (ret(ByteaDataTypeEncoder.EncodeOnFail)[2] == nil && ret(ByteaDataTypeEncoder.EncodeOnFail)[1] == nil)) && ret(DataTypeFormat.IsBinaryFormat)[0] ==> sameslice(out, data) && err == nil
+//@   ensures text-as-hex: (ret(base.IsDecryptedFromContext)[0] || (ret(ByteaDataTypeEncoder.EncodeOnFail)[2] == nil && ret(ByteaDataTypeEncoder.EncodeOnFail)[1] == nil)) && !ret(DataTypeFormat.IsBinaryFormat)[0] ==> sameslice(out, ret(utils.PgEncodeToHex)[0]) && sameslice(argof(utils.PgEncodeToHex)[0], data) && err == nil
+
+//@ func (t *ByteaDataTypeEncoder) EncodeOnFail(ctx context.Context, format type_awareness.DataTypeFormat) (outCtx context.Context, out []byte, err error)
+//@   props C19
+//@   safety
+//@   noinline encodeDefault
+//@   ensures ciphertext-or-empty: ret(DataTypeFormat.GetResponseOnFail)[0] == common.ResponseOnFailEmpty || ret(DataTypeFormat.GetResponseOnFail)[0] == common.ResponseOnFailCiphertext ==> out == nil && err == nil
+//@   ensures error-policy: ret(DataTypeFormat.GetResponseOnFail)[0] == common.ResponseOnFailError ==> err != nil && out == nil
+//@   ensures default-policy: ret(DataTypeFormat.GetResponseOnFail)[0] == common.ResponseOnFailDefault && ret(DataTypeFormat.GetDefaultDataValue)[0] != nil ==> called(ByteaDataTypeEncoder.encodeDefault) && err == ret(ByteaDataTypeEncoder.encodeDefault)[2] && sameslice(out, ret(ByteaDataTypeEncoder.encodeDefault)[1])
+//@   ensures unknown-policy-rejected: ret(DataTypeFormat.GetResponseOnFail)[0] != common.ResponseOnFailEmpty && ret(DataTypeFormat.GetResponseOnFail)[0] != common.ResponseOnFailCiphertext && ret(DataTypeFormat.GetResponseOnFail)[0] != common.ResponseOnFailDefault && ret(DataTypeFormat.GetResponseOnFail)[0] != common.ResponseOnFailError ==> err != nil
+
+//@ func (t *ByteaDataTypeEncoder) encodeDefault(ctx context.Context, data []byte, format type_awareness.DataTypeFormat) (outCtx context.Context, out []byte, err error)
+//@   props C19
+//@   safety
+//@   ensures never-an-error: err == nil
+//@   ensures undecodable-default-is-no-value: ret(base64.Encoding.DecodeString)[1] != nil ==> out == nil
+//@   ensures binary-as-decoded: ret(base64.Encoding.DecodeString)[1] == nil && ret(DataTypeFormat.IsBinaryFormat)[0] ==> sameslice(out, ret(base64.Encoding.DecodeString)[0])
+//@   ensures text-as-hex: ret(base64.Encoding.DecodeString)[1] == nil && !ret(DataTypeFormat.IsBinaryFormat)[0] ==> sameslice(out, ret(utils.PgEncodeToHex)[0]) && sameslice(argof(utils.PgEncodeToHex)[0], ret(base64.Encoding.DecodeString)[0])
+
+//@ func (t *ByteaDataTypeEncoder) Decode(ctx context.Context, data []byte, format type_awareness.DataTypeFormat) (outCtx context.Context, out []byte, err error)
+//@   props C19
+//@   safety
+//@   ensures binary-untouched: ret(DataTypeFormat.IsBinaryFormat)[0] ==> sameslice(out, data) && err == nil
+//@   ensures undecodable-untouched: called(utils.DecodeEscaped) && ret(utils.DecodeEscaped)[1] != nil ==> sameslice(out, data)
+//@   ensures decoded-and-original-kept: called(utils.DecodeEscaped) && ret(utils.DecodeEscaped)[1] == nil ==> sameslice(out, ret(utils.DecodeEscaped)[0]) && err == nil && called(base.EncodedValueContext) && sameslice(argof(base.EncodedValueContext)[1], data)
+//@   ensures plain-untouched: !ret(DataTypeFormat.IsBinaryFormat)[0] && !ret(DataTypeFormat.IsBinaryDataOperation)[0] ==> sameslice(out, data) && err == nil
+//@   at call utils.DecodeEscaped : assert sameslice(arg[0], data)
